@@ -1451,7 +1451,7 @@ class UserSessionManager(Service, discriminator="user-session-manager"):
             session.end_step = self.current_timestep
             self.local_session = None
 
-        if not local and remote_session_id:
+        if not local and remote_session_id in self.remote_sessions:
             self.parent.terminal._disconnect(remote_session_id)
             session = self.remote_sessions.pop(remote_session_id)
         if session:
